@@ -145,7 +145,7 @@ def build_driver():
     return os.path.join(DRIVER_TARGET, 'debug/smi-native-driver')
 
 
-def run_driver(exe, d, start, out, fail_at=None, repeat=1, order=None, short=False, timeout=120):
+def run_driver(exe, d, start, out, fail_at=None, repeat=1, order=None, short=False, timeout=120, kind=None):
     cmd = [exe, 'gen', d, start, out]
     if fail_at is not None:
         cmd += ['--fail-at', str(fail_at)]
@@ -155,4 +155,6 @@ def run_driver(exe, d, start, out, fail_at=None, repeat=1, order=None, short=Fal
         cmd += ['--order', ','.join(order)]
     if short:
         cmd += ['--short']
+    if kind:
+        cmd += ['--kind', kind]
     return run(cmd, timeout=timeout, mem_kb=4_000_000)
